@@ -427,6 +427,13 @@ func (x *dbExec) step(db *simpledb.DB, s dbStep, g int) (*simpledb.DB, error) {
 		x.crashCheck(db, s)
 	case "tornreopen":
 		x.tornReopen(db, s)
+	case "snapshot":
+		// copy of the live directory (= the image a kill would leave at this quiescent point), kept for the caller under <dir>-<v>
+		atomic.AddInt32(&x.rec.barrier, 2)
+		db.VerifFlushBarrier()
+		if err := copyTree(x.dir, x.dir+"-"+s.V); err != nil {
+			rec.emit(M{"t": "note", "name": "snapshot failed: " + err.Error()})
+		}
 	case "sched":
 		x.sched(db, s)
 	case "window":
